@@ -30,10 +30,13 @@ VARIABLES phase,     \* [Groups -> {"idle","act","work","ctr","popping","done"}]
           handled,   \* items handled
           remaining, \* activations_remaining
           delayed,   \* delay_processing queue (capacity 1)
-          registered \* start_stop_sections queue
+          registered, \* start_stop_sections queue
+          claim,     \* [Groups -> Items \cup {"none"}] request whose per-symbol flag the task inside
+                     \* do_pending_work has just set and which it has not yet pushed
+          actClaim   \* the same for the group's activation task
 
 vars == <<phase, runner, popBy, actPend, pend, local, slotWork, parked, wake, requested,
-          handled, remaining, delayed, registered>>
+          handled, remaining, delayed, registered, claim, actClaim>>
 
 Init == /\ phase = [g \in Groups |-> "idle"]
         /\ runner = [g \in Groups |-> "none"]
@@ -49,33 +52,46 @@ Init == /\ phase = [g \in Groups |-> "idle"]
         /\ remaining = Cardinality(Groups)
         /\ delayed = {}
         /\ registered = <<>>
+        /\ claim = [g \in Groups |-> "none"]
+        /\ actClaim = [g \in Groups |-> "none"]
 
 StartAct(g) == /\ phase[g] = "idle"
                /\ phase' = [phase EXCEPT ![g] = "act"]
                /\ actPend' = [actPend EXCEPT ![g] = InitProducts[g]]
                /\ UNCHANGED <<runner, popBy, pend, local, slotWork, parked, wake, requested,
-                              handled, remaining, delayed, registered>>
+                              handled, remaining, delayed, registered, claim, actClaim>>
 
-\* Issue request j on behalf of group g: the per-symbol flag decides whether it is sent at all;
-\* a request for another group goes into that group's slot, taking the parked worker if any.
-Issue(g, j) ==
-    IF j \in requested
-    THEN UNCHANGED <<local, slotWork, parked, wake, requested>>
-    ELSE /\ requested' = requested \cup {j}
-         /\ IF Owner[j] = g
-            THEN /\ local' = [local EXCEPT ![g] = Append(@, j)]
-                 /\ UNCHANGED <<slotWork, parked, wake>>
-            ELSE /\ slotWork' = [slotWork EXCEPT ![Owner[j]] = Append(@, j)]
-                 /\ parked' = [parked EXCEPT ![Owner[j]] = FALSE]
-                 /\ wake' = IF parked[Owner[j]] THEN wake \cup {Owner[j]} ELSE wake
-                 /\ UNCHANGED local
+\* Issuing request j takes two steps of the issuing task. First the per-symbol flag is set (an
+\* atomic fetch_or): it decides whether the request is sent at all, and by whom. Only the task that
+\* set it sends the request, in a later step; another task that meets the symbol in between sees
+\* the flag and sends nothing (observed in the implementation: schedule 0^20 1 of harness samesym).
+\* A request for another group goes into that group's slot, taking the parked worker if any.
+Push(g, j) ==
+    IF Owner[j] = g
+    THEN /\ local' = [local EXCEPT ![g] = Append(@, j)]
+         /\ UNCHANGED <<slotWork, parked, wake>>
+    ELSE /\ slotWork' = [slotWork EXCEPT ![Owner[j]] = Append(@, j)]
+         /\ parked' = [parked EXCEPT ![Owner[j]] = FALSE]
+         /\ wake' = IF parked[Owner[j]] THEN wake \cup {Owner[j]} ELSE wake
+         /\ UNCHANGED local
 
-ActSend(g) == /\ phase[g] = "act" /\ actPend[g] # <<>>
-              /\ Issue(g, Head(actPend[g]))
+ActSend(g) == /\ phase[g] = "act" /\ actPend[g] # <<>> /\ actClaim[g] = "none"
+              /\ LET j == Head(actPend[g]) IN
+                   IF j \in requested
+                   THEN UNCHANGED <<requested, actClaim>>
+                   ELSE /\ requested' = requested \cup {j}
+                        /\ actClaim' = [actClaim EXCEPT ![g] = j]
               /\ actPend' = [actPend EXCEPT ![g] = Tail(@)]
-              /\ UNCHANGED <<phase, runner, popBy, pend, handled, remaining, delayed, registered>>
+              /\ UNCHANGED <<phase, runner, popBy, pend, local, slotWork, parked, wake, handled,
+                             remaining, delayed, registered, claim>>
 
-ActDone(g) == /\ phase[g] = "act" /\ actPend[g] = <<>>
+ActPush(g) == /\ actClaim[g] # "none"
+              /\ Push(g, actClaim[g])
+              /\ actClaim' = [actClaim EXCEPT ![g] = "none"]
+              /\ UNCHANGED <<phase, runner, popBy, actPend, pend, requested, handled, remaining,
+                             delayed, registered, claim>>
+
+ActDone(g) == /\ phase[g] = "act" /\ actPend[g] = <<>> /\ actClaim[g] = "none"
               /\ ~(Variant = "counter-before-push" /\ g = Synth)
               /\ IF g = Synth
                  THEN /\ delayed' = delayed \cup {g}
@@ -86,9 +102,9 @@ ActDone(g) == /\ phase[g] = "act" /\ actPend[g] = <<>>
                       /\ UNCHANGED delayed
               /\ registered' = registered \o Registers[g]
               /\ UNCHANGED <<popBy, actPend, pend, local, slotWork, parked, wake, requested,
-                             handled, remaining>>
+                             handled, remaining, claim, actClaim>>
 
-Handle(g) == /\ runner[g] # "none" /\ pend[g] = <<>> /\ local[g] # <<>>
+Handle(g) == /\ runner[g] # "none" /\ pend[g] = <<>> /\ local[g] # <<>> /\ claim[g] = "none"
              /\ LET i == local[g][Len(local[g])] IN
                   /\ handled' = handled \cup {i}
                   /\ IF i \in DrainItems
@@ -96,16 +112,27 @@ Handle(g) == /\ runner[g] # "none" /\ pend[g] = <<>> /\ local[g] # <<>>
                      ELSE pend' = [pend EXCEPT ![g] = Products[i]] /\ UNCHANGED registered
                   /\ local' = [local EXCEPT ![g] = SubSeq(@, 1, Len(@) - 1)]
              /\ UNCHANGED <<phase, runner, popBy, actPend, slotWork, parked, wake, requested,
-                            remaining, delayed>>
+                            remaining, delayed, claim, actClaim>>
 
-Deliver(g) == /\ runner[g] # "none" /\ pend[g] # <<>>
-              /\ Issue(g, Head(pend[g]))
+Deliver(g) == /\ runner[g] # "none" /\ pend[g] # <<>> /\ claim[g] = "none"
+              /\ LET j == Head(pend[g]) IN
+                   IF j \in requested
+                   THEN UNCHANGED <<requested, claim>>
+                   ELSE /\ requested' = requested \cup {j}
+                        /\ claim' = [claim EXCEPT ![g] = j]
               /\ pend' = [pend EXCEPT ![g] = Tail(@)]
-              /\ UNCHANGED <<phase, runner, popBy, actPend, handled, remaining, delayed, registered>>
+              /\ UNCHANGED <<phase, runner, popBy, actPend, local, slotWork, parked, wake, handled,
+                             remaining, delayed, registered, actClaim>>
+
+DeliverPush(g) == /\ claim[g] # "none"
+                  /\ Push(g, claim[g])
+                  /\ claim' = [claim EXCEPT ![g] = "none"]
+                  /\ UNCHANGED <<phase, runner, popBy, actPend, pend, requested, handled,
+                                 remaining, delayed, registered, actClaim>>
 
 \* The critical section at the bottom of do_pending_work's loop.
 SlotCheck(g) ==
-    /\ runner[g] # "none" /\ pend[g] = <<>> /\ local[g] = <<>>
+    /\ runner[g] # "none" /\ pend[g] = <<>> /\ local[g] = <<>> /\ claim[g] = "none"
     /\ IF slotWork[g] = <<>>
        THEN /\ parked' = [parked EXCEPT ![g] = TRUE]
             /\ runner' = [runner EXCEPT ![g] = "none"]
@@ -117,13 +144,13 @@ SlotCheck(g) ==
             /\ slotWork' = [slotWork EXCEPT ![g] = <<>>]
             /\ UNCHANGED <<parked, runner, phase>>
     /\ UNCHANGED <<popBy, actPend, pend, wake, requested, handled, remaining, delayed,
-                   registered>>
+                   registered, claim, actClaim>>
 
 WakeBegin(g) == /\ g \in wake /\ runner[g] = "none"
                 /\ wake' = wake \ {g}
                 /\ runner' = [runner EXCEPT ![g] = "wake"]
                 /\ UNCHANGED <<phase, popBy, actPend, pend, local, slotWork, parked, requested,
-                               handled, remaining, delayed, registered>>
+                               handled, remaining, delayed, registered, claim, actClaim>>
 
 \* fetch_sub on activations_remaining; whoever reaches zero runs the delayed group.
 Counter(g) == /\ phase[g] = "ctr"
@@ -136,16 +163,16 @@ Counter(g) == /\ phase[g] = "ctr"
                  ELSE /\ phase' = [phase EXCEPT ![g] = "done"]
                       /\ UNCHANGED <<delayed, runner, popBy>>
               /\ UNCHANGED <<actPend, pend, local, slotWork, parked, wake, requested, handled,
-                             registered>>
+                             registered, claim, actClaim>>
 
 \* Seeded slip (seeded/c39-1): the synthetic group decrements activations_remaining BEFORE it
 \* pushes itself to delay_processing.
 SlipDecrement(g) == /\ Variant = "counter-before-push" /\ g = Synth
-                    /\ phase[g] = "act" /\ actPend[g] = <<>>
+                    /\ phase[g] = "act" /\ actPend[g] = <<>> /\ actClaim[g] = "none"
                     /\ remaining' = remaining - 1
                     /\ phase' = [phase EXCEPT ![g] = IF remaining = 1 THEN "slip-last" ELSE "slip"]
                     /\ UNCHANGED <<runner, popBy, actPend, pend, local, slotWork, parked, wake,
-                                   requested, handled, delayed>>
+                                   requested, handled, delayed, claim, actClaim>>
                     /\ registered' = registered \o Registers[g]
 SlipPush(g) == /\ phase[g] \in {"slip", "slip-last"}
                /\ IF phase[g] = "slip-last"
@@ -157,10 +184,11 @@ SlipPush(g) == /\ phase[g] \in {"slip", "slip-last"}
                        /\ phase' = [phase EXCEPT ![g] = "done"]
                        /\ UNCHANGED <<runner, popBy>>
                /\ UNCHANGED <<actPend, pend, local, slotWork, parked, wake, requested, handled,
-                              remaining, registered>>
+                              remaining, registered, claim, actClaim>>
 
-Next == \E g \in Groups : \/ SlipDecrement(g) \/ SlipPush(g) \/ StartAct(g) \/ ActSend(g) \/ ActDone(g) \/ Handle(g)
-                          \/ Deliver(g) \/ SlotCheck(g) \/ WakeBegin(g) \/ Counter(g)
+Next == \E g \in Groups : \/ SlipDecrement(g) \/ SlipPush(g) \/ StartAct(g) \/ ActSend(g) \/ ActPush(g)
+                          \/ ActDone(g) \/ Handle(g) \/ Deliver(g) \/ DeliverPush(g)
+                          \/ SlotCheck(g) \/ WakeBegin(g) \/ Counter(g)
 
 Spec == Init /\ [][Next]_vars /\ WF_vars(Next)
 
